@@ -268,7 +268,7 @@ def write_replay(prop: str, v: dict) -> str:
     return path
 
 
-def finish(mod, tier: str, seed: int, merged: dict, wall: float, workers_failed: list[str], write_evidence=True) -> int:
+def finish(mod, tier: str, seed: int, merged: dict, wall: float, workers_failed: list[str], write_evidence=True, replay=False) -> int:
     prop = mod.PROPERTY
     findings = load_findings()
     known_lines, real = [], []
@@ -282,10 +282,14 @@ def finish(mod, tier: str, seed: int, merged: dict, wall: float, workers_failed:
     inconclusive = []
     if workers_failed:
         inconclusive.append("workers failed/timeouts: " + "; ".join(workers_failed))
-    for c in getattr(mod, "REQUIRED_COUNTERS", []):
+    for c in ([] if replay else getattr(mod, "REQUIRED_COUNTERS", [])):
         if merged["counters"].get(c, 0) == 0:
             inconclusive.append(f"monitor '{c}' observed nothing")
     min_nt = getattr(mod, "MIN_NONTRIVIAL", {}).get(tier, 2)
+    if replay:
+        min_nt = 0
+        if merged["evaluations"] == 0:
+            inconclusive.append("replay evaluated nothing")
     if len(merged["nontrivial"]) < min_nt:
         inconclusive.append(f"only {len(merged['nontrivial'])} non-trivial cases (< {min_nt})")
     if merged["counters"].get("cases_skipped_deadline", 0) and tier == "quick":
@@ -296,6 +300,8 @@ def finish(mod, tier: str, seed: int, merged: dict, wall: float, workers_failed:
     for ent, v in known_lines:
         seen_ents.setdefault(ent["id"], (ent, 0))
         seen_ents[ent["id"]] = (ent, seen_ents[ent["id"]][1] + v["n"])
+    for ent, v in known_lines:
+        write_replay(prop, v)  # witness of a listed finding (replays/ is scratch; committed copies live in findings/)
     for eid, (ent, n) in sorted(seen_ents.items()):
         print(f"KNOWN-FINDING: property={prop} {ent['id']}: {ent['what']} (observed {n}x this run)")
 
